@@ -60,6 +60,9 @@ var vCores = []string{"0", "1", "2", "3", "4", "5"}
 
 const vMemMax = 1 << 40
 
+// vCPUGridScale: symbolic CPU totals are multiples of 2^-scale cores (2: quarter cores).
+var vCPUGridScale = 2
+
 type vNode struct {
 	n              int
 	capP, useP     []int
@@ -79,7 +82,7 @@ func vMkNode(pfx string, n int, numa bool, maxPieces int, v1, cpuGrid bool) *vNo
 	usage := &types.NodeResource{CPUMap: types.CPUMap{}, NUMAMemory: types.NUMAMemory{}, NUMA: types.NUMA{}}
 	capacity.CPU = float64(n)
 	if cpuGrid {
-		nd.cpuUse = vGrid(pfx+"cpu_use", 2, 0, 4*64)
+		nd.cpuUse = vGrid(pfx+"cpu_use", vCPUGridScale, 0, 64<<vCPUGridScale)
 		usage.CPU = nd.cpuUse
 	}
 	for i := 0; i < n; i++ {
